@@ -12,6 +12,7 @@ From TskVerif Require Import C01.IndexProofs.
 From TskVerif Require Import C01.InductProofs.
 From TskVerif Require Import C01.CountProofs.
 From TskVerif Require Import C01.QueryProofs.
+From TskVerif Require Import C01.EdgeProofs.
 Import ListNotations.
 Open Scope Z_scope.
 
@@ -161,7 +162,7 @@ Lemma counts_local_lemma L ns es Ins Rem q :
 Proof.
   intros HVb HI HQ o k t H u Hu.
   destruct (counts_invariant L ns es Ins Rem q (valid_edgesb_spec _ _ _ HVb) HI HQ o k t H)
-    as (_ & _ & _ & _ & _ & LE1 & LE2).
+    as (_ & _ & _ & _ & _ & LE1 & LE2 & _).
   destruct (LE1 u Hu) as (a & Ga & Ea). destruct (LE2 u Hu) as (b & Gb & Eb).
   exists a, b. auto.
 Qed.
@@ -205,6 +206,41 @@ Proof.
     bind_inv Hm. bind_inv Hm.
     eapply (mrca_loop_spec q P); eauto; try (unfold NULL; lia).
     intros u0 p0 G NP _. apply MO'; auto.
+Qed.
+
+Lemma edge_id_spec_lemma L ns es x u i :
+  valid_edgesb L ns es = true ->
+  (parent_at (es_id es) x u = i /\ i <> NULL) <->
+  (exists e, get es i = Ok e /\ echild e = u /\ eleft e <= x < eright e).
+Proof.
+  intros HVb. pose proof (valid_edgesb_spec _ _ _ HVb) as HV. split.
+  - intros [H1 H2]. destruct (parent_at_some _ _ _ _ H1 H2) as (e' & Hin & Hc & Hp & Hcov).
+    apply (esi_In es) in Hin as (i0 & e & G & ->). simpl in *. subst i0.
+    exists e. unfold ileft, iright, ichild in *. simpl in *. auto.
+  - intros (e & G & Hc & Hcov). subst u.
+    assert (Hin : In (snd (rel (i, e))) (es_id es)) by (apply esi_In; eauto).
+    split.
+    + change (echild e) with (echild (snd (rel (i, e)))).
+      rewrite (parent_at_unique (es_id es) (Hdisj_id L ns es HV) x (snd (rel (i, e))) Hin); [reflexivity|].
+      simpl. exact Hcov.
+    + apply get_inv in G. unfold NULL. lia.
+Qed.
+
+Lemma edge_array_exact_lemma L ns es Ins Rem q :
+  valid_edgesb L ns es = true -> index_sorted es Ins Rem -> mk_tseq L ns es Ins Rem = Ok q ->
+  forall o k t, tree_at_index q o k = Ok t ->
+  forall x, p_left (t_pos t) <= x < p_right (t_pos t) ->
+  forall u, 0 <= u < zlen ns -> get (t_edge t) u = Ok (parent_at (es_id es) x u).
+Proof.
+  intros HVb HI HQ o k t H x Hx u Hu.
+  pose proof (valid_edgesb_spec _ _ _ HVb) as HV.
+  destruct (tseq_facts L ns es Ins Rem q HVb HI HQ) as (steps & Oend & SW & CH & F & NE & OE & EB & EN & ENn & _).
+  destruct (tree_at_index_at_step L ns es Ins Rem q HV HI HQ o steps Oend CH F EB EN ENn k t H)
+    as (s & Hs & I1 & I2 & I3 & _).
+  destruct (edge_array_at_step L ns es Ins Rem q HV HI HQ o steps Oend CH F EB EN ENn k t H)
+    as (s1 & Hs1 & _ & Post).
+  assert (s1 = s) by congruence. subst s1. rewrite I2, I3 in Hx.
+  destruct (Post x Hx) as [_ G]. apply G. exact Hu.
 Qed.
 
 (* --- the same for the load path (tsk_table_collection_build_index) --- *)
